@@ -28,6 +28,8 @@ for k in $(seq 1 "$PROCS"); do
     pids+=($!)
 done
 for p in "${pids[@]}"; do wait "$p"; done
+# libFuzzer workers leave through _exit: remove their run-private scratch directories
+for p in "${pids[@]}"; do rm -rf "/dev/shm/jbverif-$p" "$HERE/target/tmp/jbverif-$p"; done
 EXECS=$(grep -a -h "stat::number_of_executed_units" "$WORK"/log.* | awk '{s+=$2} END {print s+0}')
 NEWU=$(ls "$WORK/corpus" | wc -l)
 # slow-unit-* files are libFuzzer's notes about inputs that took long (on a loaded machine: many);
